@@ -111,7 +111,8 @@ def compiles(ctx, arg, rec):
 def parts(ctx):
     q = ctx.quick
     return [Part("wide%02d" % i, compiles, (i, 45 if q else 2000, "wide")) for i in range(12)] + [Part("npu%02d" % i, compiles, (i, 45 if q else 1000, "npu")) for i in range(4)] + [
-        Part("reshapes%02d" % i, compiles, (i, 40 if q else 1500, "reshapes")) for i in range(4)] + [Part("corners%02d" % i, compiles, (i, 50 if q else 2000, "corners")) for i in range(4)] + [Part("fanout%02d" % i, compiles, (i, 40 if q else 1500, "fanout")) for i in range(2)]
+        Part("reshapes%02d" % i, compiles, (i, 40 if q else 1500, "reshapes")) for i in range(4)] + [Part("corners%02d" % i, compiles, (i, 50 if q else 2000, "corners")) for i in range(4)] + [
+        Part("tall%02d" % i, compiles, (i, 30 if q else 800, "tall")) for i in range(2)] + [Part("fanout%02d" % i, compiles, (i, 40 if q else 1500, "fanout")) for i in range(2)]
 
 
 def replay(ctx, case):
